@@ -43,6 +43,22 @@ KNOWN_CLASSES = {
 }
 
 PROPS = {
+    "C17": {
+        "lean_modules": ["TableauVerif.Props.C17"],
+        "oracles": ["c17.cls", "c17.fuzz"],
+        "streams": [
+            ("corr.types.match", 60000, 600000),
+            ("corr.types.misc", 9000, 200000),
+            ("spec.C17.classify", 8000, 300000),
+            ("corr.protogen.parseHeader", 4000, 200000),
+            ("e2e.C17.nopanic", 400, 20000, 8),
+        ],
+        "assumptions": [
+            "modelled: the six recognisers of internal/types (direct recognisers of the regular expressions, tied to Go's regexp by exhaustive token sequences up to length 3/4 plus random ones), BelongToFirstElement, ParseTypeDescriptor, strcase.ToSnake without acronyms, and protogen's default-mode header parser (parseField / parseMapField / parseListField / parseStructField / parseBasicField / layout look-ahead / virtual type cells / nested naming) over the key:value vocabulary of field properties",
+            "not a theorem: absence of panics and non-termination in the Go code itself; the Lean models are total by construction (the header parser by explicit fuel) and the Go code is exercised by the recover()/watchdog-guarded fuzz stream e2e.C17.nopanic and by every other stream's crash isolation (partial)",
+            "prototext parsing of the field property text is a trusted library; the model answers `unmodelled` outside its vocabulary (counted as drift in the evidence)",
+        ],
+    },
     "C18": {
         "lean_modules": ["TableauVerif.Props.C18"],
         "oracles": ["c18.prep", "c18.incr"],
